@@ -348,10 +348,60 @@ func (r *walletRig) broadcast(f *fundedV2, label string) {
 			err = r.w.BroadcastV2TransactionSet(basis, set)
 		}
 	})
+	if err != nil && mixedVersionAncestry(r.s.cm, f.txn) {
+		// between the allow and require heights a reorg can put a confirmed v1
+		// transaction back into the pool underneath a pooled v2 transaction that
+		// spends it; the pool takes v1 and v2 sets separately, so nothing built on
+		// that v2 transaction can be submitted until the v1 parent is confirmed
+		// again. Counted, not judged (see the assumptions).
+		e.Probe("funded_on_mixed_version_ancestry")
+		e.Guard("C07.panic", "ReleaseInputs", func() { r.w.ReleaseInputs(nil, []types.V2Transaction{f.txn}) })
+		r.release(inputIDs(f.txn))
+		return
+	}
 	if err != nil {
 		e.Violationf("C07.signed-accepted", "pool-rejects", "%s: the signed transaction funded by the wallet was rejected by the pool: %v", label, err)
 	}
 	e.Probe("funded_txn_broadcast")
+}
+
+// mixedVersionAncestry reports whether the unconfirmed ancestry of txn (through
+// pooled v2 transactions) reaches an output created by a pooled v1 transaction.
+func mixedVersionAncestry(cm *chain.Manager, txn types.V2Transaction) bool {
+	v1out := map[types.SiacoinOutputID]bool{}
+	for _, t := range cm.PoolTransactions() {
+		for k := range t.SiacoinOutputs {
+			v1out[t.SiacoinOutputID(k)] = true
+		}
+	}
+	creator := map[types.SiacoinOutputID]types.V2Transaction{}
+	for _, t := range cm.V2PoolTransactions() {
+		id := t.ID()
+		for k := range t.SiacoinOutputs {
+			creator[t.SiacoinOutputID(id, k)] = t
+		}
+	}
+	seen := map[types.TransactionID]bool{}
+	var walk func(t types.V2Transaction) bool
+	walk = func(t types.V2Transaction) bool {
+		if seen[t.ID()] {
+			return false
+		}
+		seen[t.ID()] = true
+		for _, in := range t.SiacoinInputs {
+			if in.Parent.StateElement.LeafIndex != types.UnassignedLeafIndex {
+				continue
+			}
+			if v1out[in.Parent.ID] {
+				return true
+			}
+			if p, ok := creator[in.Parent.ID]; ok && walk(p) {
+				return true
+			}
+		}
+		return false
+	}
+	return walk(txn)
 }
 
 func (r *walletRig) mine(n int) {
@@ -770,6 +820,6 @@ func init() {
 		Rule:        "one run = drawn wallet options (defrag threshold 0-40, max inputs for defrag 0-40, max defrag outputs 0-12, reservation 1s-6h) and a chain that leaves the wallet with mature, immature, pool-spent and unconfirmed outputs; then 10-40 drawn operations: FundV2Transaction (0, 1H, exactly spendable, spendable+1H, drawn; with/without unconfirmed), sign+broadcast / keep outstanding / release, Redistribute, SplitUTXO, blocks confirming the pool, clock jumps around the reservation period, reorgs, restart (new manager with empty pool + new wallet on the same store re-loading broadcast sets), foreign payments into the pool, and 2-4 FundV2Transaction calls issued from concurrent goroutines (amounts that cannot all succeed; a seeded scheduler decides who proceeds at the store seam and, in the instrumented flavour, at every Lock / Unlock), whose results must be pairwise disjoint; after every operation: selection rules (owned, mature, unspent, not pool-spent, not reserved by an outstanding request), value conservation, failed calls change nothing, signed results accepted by the pool, and Balance().Spendable == sum(SpendableOutputs()) == independent model == largest fundable amount; distinct = abstract trace; non-trivial = a clock jump, reorg or restart",
 		Real:        []string{"wallet.SingleAddressWallet (funding, signing, redistribute, split, release, broadcast, restart)", "chain.Manager", "chain.DBStore"},
 		Stub:        []string{"wallet store: harness walletStore", "syncer: recording stub", "disk: simdisk.DB"},
-		Assumptions: []string{"concurrent callers are interleaved at the wallet-store seam only (a seeded scheduling point inside the store call the wallet makes while holding its lock); in the lock-yield flavour every Lock / Unlock of the wallet's and the manager's mutexes is one too; other lock-level interleavings are not explored"},
+		Assumptions: []string{"a funded v2 transaction whose unconfirmed ancestry reaches a pooled v1 transaction (only between the allow and require heights, after a reorg un-confirmed the v1 parent of a pooled v2 transaction) cannot be submitted through the version-separated pool API; such cases are counted (probe funded_on_mixed_version_ancestry), not judged", "concurrent callers are interleaved at the wallet-store seam only (a seeded scheduling point inside the store call the wallet makes while holding its lock); in the lock-yield flavour every Lock / Unlock of the wallet's and the manager's mutexes is one too; other lock-level interleavings are not explored"},
 	})
 }
